@@ -31,6 +31,7 @@ type Job struct {
 	MaxViol   int               `json:"max_violations,omitempty"`
 	MaxSec    int               `json:"max_seconds,omitempty"`
 	UFMul     bool              `json:"uf_mul,omitempty"`
+	NonTerm   bool              `json:"nonterm,omitempty"`
 	Solver    []string          `json:"solver,omitempty"`
 }
 
@@ -211,6 +212,7 @@ func runJob(prog *ssa.Program, pkgs map[string]*ssa.Package, job Job, verbose bo
 	opt := Options{MaxSteps: job.MaxSteps, MaxPaths: job.MaxPaths, MaxEnum: job.MaxEnum, MaxViolations: job.MaxViol,
 		LoopCap: job.LoopCap, Stubs: job.Stubs, Params: job.Params, Verbose: verbose}
 	opt.UFMul = job.UFMul
+	opt.NonTerm = job.NonTerm
 	if job.MaxSec > 0 {
 		opt.Deadline = start.Add(time.Duration(job.MaxSec) * time.Second)
 	}
